@@ -15,6 +15,8 @@ import GoblVerif.Proofs.TaxIdIN
 import GoblVerif.Proofs.Normalize
 import GoblVerif.Proofs.Detect
 import GoblVerif.Generated.TaxIdFacts
+import GoblVerif.Generated.TaxIdSrc
+import GoblVerif.Proofs.TaxIdSrc
 
 namespace GoblVerif.Props.C13
 open GoblVerif.TaxId GoblVerif.TaxId.Norm GoblVerif.TaxId.Detect
@@ -1416,5 +1418,949 @@ theorem pt_shape_validateTaxCode :
     pt_ops_validateTaxCode = ["u!", "==", "-", "<", "||", ">", "!=", "u!", "&&", "u!", "<", "++", "-", "!=", "+=", "*", "-", "%", "case2", "default", "-", "!=", "!="] := by decide
 
 end Expect
+
+/-! ## the checkers regenerated from the source (go2lean) are the models
+
+  Generated/TaxIdSrc.lean is the translation of the Go checker functions as
+  they stand in /repo NOW (strings as byte lists, `error` as an Option, regexp
+  matches as the declared primitive `Re.reMatch`; see the header of that file).
+  Each theorem `src_*` says that a regenerated definition returns what the
+  hand-written model of Model/TaxId.lean returns — for EVERY string where no
+  hypothesis is stated, otherwise for every string that passes the stated
+  gate.  `(f (some s)).isNone` reads "Go's `f(cbc.Code(s))` returns nil". -/
+namespace Src
+open GoblVerif.Generated GoblVerif.GoSem GoblVerif.TaxIdSrc
+
+/-! ### PL -/
+
+/-- `validateNIPChecksum` = the model, for every string -/
+theorem src_pl_checksum (s : Str) : TaxIdSrc.PL.validateNIPChecksum s = PL.validateNIPChecksum s := by
+  unfold TaxIdSrc.PL.validateNIPChecksum PL.validateNIPChecksum
+  simp only [Id.run]
+  by_cases hl : s.length = 10
+  case neg =>
+    have : (s.length : Int) ≠ 10 := by omega
+    simp [hl, this]; rfl
+  have hl' : ¬ ((s.length : Int) ≠ 10) := by omega
+  rw [if_neg hl', forIn_all_guard, all_isDigitRune]
+  by_cases hd : allDig s = true
+  case neg => simp [hd, hl]; rfl
+  obtain ⟨c0,c1,c2,c3,c4,c5,c6,c7,c8,c9,rfl⟩ := len10 s hl
+  have hd' := hd
+  simp only [allDig, List.all_cons, List.all_nil, Bool.and_true, Bool.and_eq_true] at hd'
+  obtain ⟨h0, h1, h2, h3, h4, h5, h6, h7, h8, h9⟩ := hd'
+  simp [hd, h0, h1, h2, h3, h4, h5, h6, h7, h8, h9, ofRune_runeOf, atoi_single_digit, List.zipIdx, wloop, PL.weights]
+  rw [id_pure, Int.tmod_eq_emod_of_nonneg (by omega), Bool.eq_iff_iff]
+  simp only [decide_eq_true_eq, beq_iff_eq]
+  omega
+
+/-- `validateTaxCode(code)` returns nil exactly when the model accepts, for every string -/
+theorem src_pl_validate (s : Str) :
+    (TaxIdSrc.PL.validateTaxCode (some s)).isNone = accepts PL.regime s := by
+  unfold TaxIdSrc.PL.validateTaxCode
+  simp only [Id.run, src_pl_checksum, TaxIdSrc.PL.taxIdentityRegexp, re_pl, accepts, PL.regime]
+  cases s with
+  | nil => simp; rfl
+  | cons c cs =>
+    cases h1 : PL.fmt (c :: cs) <;> cases h2 : PL.validateNIPChecksum (c :: cs) <;> simp [h1, h2] <;> rfl
+
+/-! ### PT -/
+
+theorem src_pt_prefixes : TaxIdSrc.PT.validPrefixes = PT.validPrefixes.map (fun x => (x, true)) := rfl
+
+theorem src_pt_validate (s : Str) :
+    (TaxIdSrc.PT.validateTaxCode (some s)).isNone = accepts PT.regime s := by
+  unfold TaxIdSrc.PT.validateTaxCode
+  simp only [Id.run, accepts, PT.regime]
+  cases s with
+  | nil => simp; rfl
+  | cons c cs =>
+    generalize hs : c :: cs = s
+    have hne : s ≠ [] := by rw [← hs]; simp
+    have hie := isEmpty_false_of_ne hne
+    simp only [Option.getD_some, Option.isSome_some, not_true_eq_false, if_false, hne]
+    rw [forIn_all_guard, all_rune_guard]
+    by_cases hd : allDig s = true
+    case neg => simp [hd]; rw [id_pure]; simp [errNew_isNone, hie]
+    by_cases hl : s.length = 9
+    case neg =>
+      have : (s.length : Int) ≠ 9 := by omega
+      simp [hd, hl, this]; rw [id_pure]; simp [errNew_isNone, hie]
+    obtain ⟨c0,c1,c2,c3,c4,c5,c6,c7,c8,rfl⟩ := len9 s hl
+    have hd' := hd
+    simp only [allDig, List.all_cons, List.all_nil, Bool.and_true, Bool.and_eq_true] at hd'
+    obtain ⟨h0, h1, h2, h3, h4, h5, h6, h7, h8⟩ := hd'
+    rw [forIn_range_fuel _ (fun _ _ => rfl)]
+    simp [hd, forFuel, GoStr.byteAt, ofByte_toNat, atoi_single_digit, h0, h1, h2, h3, h4, h5, h6, h7, h8]
+    rw [src_pt_prefixes]
+    simp (disch := omega) only [mapGet_true_keys, PT.sumLoop, Int.tmod_eq_emod_of_nonneg]
+    have b0 := dval_le h0; have b1 := dval_le h1; have b2 := dval_le h2; have b3 := dval_le h3; have b4 := dval_le h4
+    have b5 := dval_le h5; have b6 := dval_le h6; have b7 := dval_le h7; have b8 := dval_le h8
+    simp only [id_pure, List.contains_eq_mem]
+    generalize decide ([c0] ∈ PT.validPrefixes) = p1
+    generalize decide ([c0, c1] ∈ PT.validPrefixes) = p2
+    cases p1 <;> cases p2 <;> simp [errNew_isNone] <;> (repeat' split) <;> simp_all [errNew_isNone] <;> omega
+
+/-! ### regimes/common: the Luhn check digit -/
+
+/-- `common.ComputeLuhnCheckDigit` = the model, for every string of digits (any length) -/
+theorem src_luhn (s : Str) (hd : allDig s = true) :
+    TaxIdSrc.Common.ComputeLuhnCheckDigit s = luhnCheckDigit s := by
+  unfold TaxIdSrc.Common.ComputeLuhnCheckDigit
+  simp only [Id.run]
+  rw [forIn_range_fuel _ (fun _ _ => rfl)]
+  simp only [bind, pure]
+  have key : ∀ g : Int × Int × Int → ForInStep (Int × Int × Int),
+      (∀ (sum pos i : Nat) (hi : i < s.length),
+        g ((sum : Int), (pos : Int), (i : Int)) =
+          .yield (((sum + luhnStep (dval s[i]) pos : Nat) : Int), ((pos + 1 : Nat) : Int), (i : Int) - 1)) →
+      forFuel g s.length (0, 0, (s.length : Int) - 1) = (((luhnLoop s.reverse 0 0 : Nat) : Int), ((s.length : Nat) : Int), -1) := by
+    intro g hg
+    simpa using forFuel_luhn s g hg s.length (Nat.le_refl _) 0 0
+  rw [key]
+  · simp only [luhnCheckDigit]
+    rw [show (10 : Int) = ((10 : Nat) : Int) from rfl, tmod_nat]
+    have : ((10 : Nat) : Int) - ((luhnLoop s.reverse 0 0 % 10 : Nat) : Int) = ((10 - luhnLoop s.reverse 0 0 % 10 : Nat) : Int) := by omega
+    rw [this, tmod_nat, itoa_digit _ (by omega)]
+  · intro sum pos i hi
+    have hb := isDig_bounds (allDig_getElem hd i hi)
+    have e1 : ¬ (¬ ((i : Int) ≥ 0)) := by omega
+    simp only [Id.run, e1, if_false, Int.toNat_natCast, byteAt_getElem s i hi]
+    have ep : ((pos : Int).tmod 2 = 0) ↔ (pos % 2 = 0) := by
+      rw [show (2 : Int) = ((2 : Nat) : Int) from rfl, tmod_nat]; omega
+    simp only [luhnStep, dval, beq_iff_eq, ep, Int.ofNat_eq_natCast]
+    by_cases hp : pos % 2 = 0 <;> by_cases h2 : (s[i].toNat - 48) * 2 > 9 <;>
+      have h2' : (((s[i].toNat - 48 : Nat) : Int) * 2 > 9) ↔ (s[i].toNat - 48) * 2 > 9 := by omega
+    all_goals simp only [hp, h2, h2', if_true, if_false, ForInStep.yield.injEq, Prod.mk.injEq]
+    all_goals (refine ⟨?_, ?_, trivial⟩ <;> omega)
+
+/-! ### IT -/
+
+theorem src_it_validate (s : Str) :
+    (TaxIdSrc.IT.validateTaxCode (some s)).isNone = accepts IT.regime s := by
+  unfold TaxIdSrc.IT.validateTaxCode
+  simp only [Id.run, accepts, IT.regime]
+  cases s with
+  | nil => simp; rfl
+  | cons c cs =>
+    generalize hs : c :: cs = s
+    have hne : s ≠ [] := by rw [← hs]; simp
+    have hie := isEmpty_false_of_ne hne
+    simp only [Option.getD_some, Option.isSome_some, not_true_eq_false, hne, false_or, if_false]
+    rw [forIn_all_guard, all_rune_guard]
+    by_cases hd : allDig s = true
+    case neg => simp [hd]; rw [id_pure]; simp [errNew_isNone, hie]
+    by_cases hl : s.length = 11
+    case neg =>
+      have : (s.length : Int) ≠ 11 := by omega
+      simp [hd, hl, this]; rw [id_pure]; simp [errNew_isNone, hie]
+    simp only [hd, hl, src_luhn _ (allDig_take hd 10), if_true, if_false, bind, pure, bne_self_eq_false, Bool.false_eq_true, Bool.not_true]
+    by_cases he : luhnCheckDigit (s.take 10) = s.drop 10 <;> simp [he, hie, errNew_isNone]
+
+/-! ### FR -/
+
+/-- `calculateVATCheckDigit` = the model on every string over `[A-Z0-9]` (the generic gate) -/
+theorem src_fr_vatcheck (s : Str) (hg : s.all isAZ09 = true) :
+    TaxIdSrc.FR.calculateVATCheckDigit s = FR.calculateVATCheckDigit s := by
+  unfold TaxIdSrc.FR.calculateVATCheckDigit FR.calculateVATCheckDigit
+  simp only [Id.run, pure, atoi_gated_fst s hg]
+  have e : ((atoi0 s : Nat) : Int) * 100 + 12 = ((atoi0 s * 100 + 12 : Nat) : Int) := by push_cast; rfl
+  rw [e, show (97 : Int) = ((97 : Nat) : Int) from rfl, tmod_nat, fmt02d_lt100 _ (by omega)]
+
+theorem src_fr_validate (s : Str) :
+    (TaxIdSrc.FR.validateVATTaxCode (some s)).isNone = accepts FR.regime s := by
+  unfold TaxIdSrc.FR.validateVATTaxCode
+  simp only [Id.run, accepts, FR.regime, TaxIdSrc.FR.taxCodeVATRegexp, re_fr_vat]
+  cases s with
+  | nil => simp; rfl
+  | cons c cs =>
+    generalize hs : c :: cs = s
+    have hne : s ≠ [] := by rw [← hs]; simp
+    have hie := isEmpty_false_of_ne hne
+    simp only [Option.getD_some, Option.isSome_some, not_true_eq_false, hne, false_or, if_false]
+    by_cases hf : FR.vatRe s = true
+    case neg => simp [hf]; rw [id_pure]; simp [errNew_isNone, hie]
+    have hd := (matchSeq_rep_isDig 11 s hf).1
+    simp only [hf, src_fr_vatcheck _ (allDig_isAZ09 (allDig_drop hd 2)), not_true_eq_false, if_false, pure, hie, Bool.false_or,
+      Bool.not_true, Bool.false_eq_true]
+    by_cases he : FR.calculateVATCheckDigit (s.drop 2) = s.take 2 <;> simp [he, errNew_isNone]
+
+/-- the SIREN check the normaliser uses -/
+theorem src_fr_siren (s : Str) :
+    (TaxIdSrc.FR.validateSIRENTaxCode (some s)).isNone = accepts FR.sirenValid s := by
+  unfold TaxIdSrc.FR.validateSIRENTaxCode
+  simp only [Id.run, accepts, FR.sirenValid, TaxIdSrc.FR.taxCodeSIRENRegexp, re_d9]
+  cases s with
+  | nil => simp; rfl
+  | cons c cs =>
+    generalize hs : c :: cs = s
+    have hne : s ≠ [] := by rw [← hs]; simp
+    have hie := isEmpty_false_of_ne hne
+    simp only [Option.getD_some, Option.isSome_some, not_true_eq_false, hne, false_or, if_false]
+    by_cases hf : FR.sirenRe s = true
+    case neg => simp [hf]; rw [id_pure]; simp [errNew_isNone, hie]
+    have hd := (matchSeq_rep_isDig 9 s hf).1
+    simp only [hf, src_luhn _ (allDig_take hd 8), not_true_eq_false, if_false, pure, hie, Bool.false_or, Bool.not_true,
+      Bool.false_eq_true]
+    by_cases he : luhnCheckDigit (s.take 8) = s.drop 8
+    · simp [he]
+    · have he' : ¬ (s.drop 8 = luhnCheckDigit (s.take 8)) := fun h => he h.symm
+      simp [he, he', errNew_isNone]
+
+/-! ### CO -/
+
+/-- `validateDigits` on a digit string of 8 or 9 characters and a one-digit check -/
+theorem src_co_digits (code : Str) (k : Char) (hd : allDig code = true) (hk : isDig k = true)
+    (hl : code.length = 8 ∨ code.length = 9) :
+    (TaxIdSrc.CO.validateDigits code [k]).isNone = CO.validateDigits code [k] := by
+  unfold TaxIdSrc.CO.validateDigits CO.validateDigits
+  simp only [Id.run, atoi_single_digit hk, TaxId.atoi_single k hk]
+  have bk := dval_le hk
+  rcases hl with hl | hl
+  · obtain ⟨c0,c1,c2,c3,c4,c5,c6,c7,rfl⟩ := len8 code hl
+    simp only [allDig, List.all_cons, List.all_nil, Bool.and_true, Bool.and_eq_true] at hd
+    obtain ⟨h0, h1, h2, h3, h4, h5, h6, h7⟩ := hd
+    have b0 := dval_le h0; have b1 := dval_le h1; have b2 := dval_le h2; have b3 := dval_le h3
+    have b4 := dval_le h4; have b5 := dval_le h5; have b6 := dval_le h6; have b7 := dval_le h7
+    simp [List.zipIdx, runeOf_sub_digit, h0, h1, h2, h3, h4, h5, h6, h7, TaxIdSrc.CO.nitMultipliers, CO.sumLoop, CO.nitMultipliers]
+    simp only [id_pure]
+    norm_cast
+    src_arith
+  · obtain ⟨c0,c1,c2,c3,c4,c5,c6,c7,c8,rfl⟩ := len9 code hl
+    simp only [allDig, List.all_cons, List.all_nil, Bool.and_true, Bool.and_eq_true] at hd
+    obtain ⟨h0, h1, h2, h3, h4, h5, h6, h7, h8⟩ := hd
+    have b0 := dval_le h0; have b1 := dval_le h1; have b2 := dval_le h2; have b3 := dval_le h3
+    have b4 := dval_le h4; have b5 := dval_le h5; have b6 := dval_le h6; have b7 := dval_le h7; have b8 := dval_le h8
+    simp [List.zipIdx, runeOf_sub_digit, h0, h1, h2, h3, h4, h5, h6, h7, h8, TaxIdSrc.CO.nitMultipliers, CO.sumLoop, CO.nitMultipliers]
+    simp only [id_pure]
+    norm_cast
+    src_arith
+
+theorem src_co_validate (s : Str) :
+    (TaxIdSrc.CO.validateTaxCode (some s)).isNone = accepts CO.regime s := by
+  unfold TaxIdSrc.CO.validateTaxCode
+  simp only [Id.run, accepts, CO.regime]
+  cases s with
+  | nil => simp; rfl
+  | cons c cs =>
+    generalize hs : c :: cs = s
+    have hne : s ≠ [] := by rw [← hs]; simp
+    have hie := isEmpty_false_of_ne hne
+    simp only [Option.getD_some, Option.isSome_some, not_true_eq_false, hne, if_false]
+    rw [forIn_all_guard, all_rune_guard]
+    by_cases hd : allDig s = true
+    case neg => simp [hd]; rw [id_pure]; simp [errNew_isNone, hie]
+    by_cases h10 : s.length > 10
+    case pos =>
+      have : (s.length : Int) > 10 := by omega
+      simp [hd, h10, this]; rw [id_pure]; simp [errNew_isNone, hie]
+    by_cases h9 : s.length < 9
+    case pos =>
+      have e1 : ¬ ((s.length : Int) > 10) := by omega
+      have e2 : (s.length : Int) < 9 := by omega
+      simp [hd, h10, h9, e1, e2]; rw [id_pure]; simp [errNew_isNone, hie]
+    have e1 : ¬ ((s.length : Int) > 10) := by omega
+    have e2 : ¬ ((s.length : Int) < 9) := by omega
+    simp only [hd, h10, h9, e1, e2, if_true, if_false, bind, pure, hie, Bool.false_or, Bool.not_true, Bool.false_eq_true]
+    have hl : s.length = 9 ∨ s.length = 10 := by omega
+    rcases hl with hl | hl
+    · obtain ⟨c0,c1,c2,c3,c4,c5,c6,c7,c8,rfl⟩ := len9 s hl
+      have hd' := hd
+      simp only [allDig, List.all_cons, List.all_nil, Bool.and_true, Bool.and_eq_true] at hd'
+      have := src_co_digits [c0,c1,c2,c3,c4,c5,c6,c7] c8 (by simp [allDig, hd']) hd'.2.2.2.2.2.2.2.2 (Or.inl rfl)
+      simpa [GoStr.slice] using this
+    · obtain ⟨c0,c1,c2,c3,c4,c5,c6,c7,c8,c9,rfl⟩ := len10 s hl
+      have hd' := hd
+      simp only [allDig, List.all_cons, List.all_nil, Bool.and_true, Bool.and_eq_true] at hd'
+      have := src_co_digits [c0,c1,c2,c3,c4,c5,c6,c7,c8] c9 (by simp [allDig, hd']) hd'.2.2.2.2.2.2.2.2.2 (Or.inr rfl)
+      simpa [GoStr.slice] using this
+
+/-! ### AE, MX (format only) -/
+
+theorem src_ae_validate (s : Str) :
+    (TaxIdSrc.AE.validateTRNCode (some s)).isNone = accepts AE.regime s := by
+  unfold TaxIdSrc.AE.validateTRNCode
+  simp only [Id.run, accepts, TaxIdSrc.AE.trnRegex, re_ae]
+  cases s with
+  | nil => simp; rfl
+  | cons c cs => cases h : AE.regime (c :: cs) <;> simp [h, errNew_isNone] <;> rfl
+
+theorem src_mx_type (s : Str) :
+    TaxIdSrc.MX.DetermineTaxCodeType s =
+      if MX.personRe s then "person".toList else if MX.companyRe s then "company".toList else [] := by
+  unfold TaxIdSrc.MX.DetermineTaxCodeType
+  simp only [Id.run, TaxIdSrc.MX.TaxIdentityRegexpPerson, TaxIdSrc.MX.TaxIdentityRegexpCompany, re_mx_person, re_mx_company]
+  by_cases h1 : MX.personRe s = true <;> by_cases h2 : MX.companyRe s = true <;> simp [h1, h2] <;> rfl
+
+/-! ### DE -/
+
+theorem src_de_checksum (s : Str) (hf : DE.fmt s = true) :
+    (TaxIdSrc.DE.validateTaxCodeChecksum s).isNone = DE.validateTaxCodeChecksum s := by
+  have hl : s.length = 9 := by simpa [rep] using matchSeq_length _ _ hf
+  have hd : ∀ j (hj : j < s.length), isDig s[j] = true := by
+    obtain ⟨c0,c1,c2,c3,c4,c5,c6,c7,c8,rfl⟩ := len9 s hl
+    simp only [DE.fmt, matchSeq, rep, List.replicate, Bool.and_eq_true, Bool.and_true] at hf
+    obtain ⟨h0', h1, h2, h3, h4, h5, h6, h7, h8⟩ := hf
+    have h0 : isDig c0 = true := by simp only [isDig, decide_eq_true_eq] at h0' ⊢; omega
+    intro j hj
+    match j, hj with
+    | 0, _ | 1, _ | 2, _ | 3, _ | 4, _ | 5, _ | 6, _ | 7, _ | 8, _ => simpa
+  unfold TaxIdSrc.DE.validateTaxCodeChecksum DE.validateTaxCodeChecksum
+  simp only [Id.run]
+  rw [forIn_range_fuel _ (fun _ _ => rfl)]
+  have key := fun g h => forFuel_de (ρ := Option GoStr.Str) s g h 8 0 10 0 (by omega)
+  simp only [Nat.cast_ofNat, Nat.cast_zero, Nat.zero_add] at key
+  simp only [bind, pure]
+  rw [key]
+  · have h8 := deIter_loop s 8 0 10 0 (by omega) (fun j hj _ _ => hd j hj)
+    simp only [List.drop_zero] at h8
+    have hd8 := hd 8 (by omega)
+    have e8 : s.getD 8 ' ' = s[8] := by simp [List.getD_eq_getElem?_getD, hl]
+    simp only [h8, e8, TaxId.atoi_single _ hd8, byteAt_getElem s 8 (by omega), ofByte_toNat, atoi_single_digit hd8]
+    have hp := deIter_le s 8 0 10 0 (by omega)
+    have hdv := dval_le hd8
+    generalize (deIter s 8 0 10 0).1 = p at hp ⊢
+    generalize dval s[8] = d at hdv ⊢
+    simp only [Option.isSome_none, Bool.false_eq_true, if_false]
+    clear key h8 hd hd8 e8 hf hl
+    src_arith
+  · intro p sum i hi
+    have hdi := hd i (by omega)
+    have e1 : ¬ (¬ ((i : Int) < 8)) := by omega
+    have hil : i < s.length := by omega
+    have ei : s.getD i '0' = s[i] := by simp [List.getD_eq_getElem?_getD, hil]
+    simp only [Id.run, e1, if_false, Int.toNat_natCast, byteAt_getElem s i (by omega), ofByte_toNat, atoi_single_digit hdi, ei]
+    simp only [Option.isSome_none, Bool.false_eq_true, if_false, deStep, beq_iff_eq]
+    have et : ((dval s[i] : Int) + (p : Int)).tmod 10 = (((dval s[i] + p) % 10 : Nat) : Int) := by
+      rw [← Int.natCast_add, show (10 : Int) = ((10 : Nat) : Int) from rfl, tmod_nat]
+    rw [et]
+    by_cases h0 : (dval s[i] + p) % 10 = 0
+    · simp [h0]
+    · have h0' : ¬ ((((dval s[i] + p) % 10 : Nat) : Int) = 0) := by omega
+      simp only [h0, h0', if_false, ForInStep.yield.injEq, Prod.mk.injEq, true_and]
+      refine ⟨?_, by omega⟩
+      rw [show (2 : Int) * (((dval s[i] + p) % 10 : Nat) : Int) = ((2 * ((dval s[i] + p) % 10) : Nat) : Int) from by push_cast; rfl,
+        show (11 : Int) = ((11 : Nat) : Int) from rfl, tmod_nat]
+
+theorem src_de_validate (s : Str) :
+    (TaxIdSrc.DE.validateTaxCode (some s)).isNone = accepts DE.regime s := by
+  unfold TaxIdSrc.DE.validateTaxCode
+  simp only [Id.run, accepts, DE.regime, TaxIdSrc.DE.taxCodeRegexps]
+  cases s with
+  | nil => simp; rfl
+  | cons c cs =>
+    generalize hs : c :: cs = s
+    have hne : s ≠ [] := by rw [← hs]; simp
+    have hie := isEmpty_false_of_ne hne
+    simp only [Option.getD_some, Option.isSome_some, not_true_eq_false, hne, false_or, if_false]
+    rw [forIn_match_one, re_de]
+    by_cases hf : DE.fmt s = true
+    case neg => simp [hf]; rw [id_pure]; simp [errNew_isNone, hie]
+    simp only [hf, bind, pure, not_true_eq_false, if_false, hie, Bool.false_or, Bool.true_and]
+    exact src_de_checksum s hf
+
+/-! ### GR -/
+
+theorem src_gr_checksum (s : Str) (hf : GR.fmt s = true) :
+    TaxIdSrc.GR.hasValidChecksum s = GR.hasValidChecksum s := by
+  obtain ⟨hd, hl⟩ := matchSeq_rep_isDig 9 s hf
+  obtain ⟨c0,c1,c2,c3,c4,c5,c6,c7,c8,rfl⟩ := len9 s hl
+  have hd' := hd
+  simp only [allDig, List.all_cons, List.all_nil, Bool.and_true, Bool.and_eq_true] at hd'
+  obtain ⟨h0, h1, h2, h3, h4, h5, h6, h7, h8⟩ := hd'
+  unfold TaxIdSrc.GR.hasValidChecksum GR.hasValidChecksum
+  simp only [Id.run]
+  simp [hd, h0, h1, h2, h3, h4, h5, h6, h7, h8, ofRune_runeOf, atoi_single_digit, List.zipIdx]
+  rw [show List.range' 0 8 = [0,1,2,3,4,5,6,7] from rfl]
+  simp [GR.sumLoop]
+  rw [id_pure]
+  norm_cast
+
+theorem src_gr_validate (s : Str) :
+    (TaxIdSrc.GR.validateTaxCode (some s)).isNone = accepts GR.regime s := by
+  unfold TaxIdSrc.GR.validateTaxCode
+  simp only [Id.run, accepts, GR.regime, TaxIdSrc.GR.taxCodeRegexp, re_d9]
+  cases s with
+  | nil => simp; rfl
+  | cons c cs =>
+    generalize hs : c :: cs = s
+    have hne : s ≠ [] := by rw [← hs]; simp
+    have hie := isEmpty_false_of_ne hne
+    simp only [Option.getD_some, Option.isSome_some, not_true_eq_false, hne, false_or, if_false]
+    by_cases hf : GR.fmt s = true
+    case neg =>
+      have hf' : FR.sirenRe s = false := by simpa [GR.fmt, FR.sirenRe] using hf
+      simp [hf, hf']; rw [id_pure]; simp [errNew_isNone, hie]
+    have hf' : FR.sirenRe s = true := hf
+    simp only [hf, hf', src_gr_checksum s hf, not_true_eq_false, if_false, hie, Bool.false_or, Bool.true_and]
+    cases GR.hasValidChecksum s <;> simp [errNew_isNone] <;> rfl
+
+/-! ### NL -/
+
+theorem src_nl_mod11 (n : Nat) : TaxIdSrc.NL.mod11 (n : Int) = NL.mod11 n := by
+  unfold TaxIdSrc.NL.mod11 NL.mod11
+  simp only [Id.run]
+  rw [forIn_range_fuel _ (fun _ _ => rfl)]
+  simp [forFuel, NL.mod11Loop]
+  norm_cast
+
+theorem src_nl_mod97 (c0 c1 c2 c3 c4 c5 c6 c7 c8 e0 e1 : Char)
+    (h0 : isDig c0 = true) (h1 : isDig c1 = true) (h2 : isDig c2 = true) (h3 : isDig c3 = true) (h4 : isDig c4 = true)
+    (h5 : isDig c5 = true) (h6 : isDig c6 = true) (h7 : isDig c7 = true) (h8 : isDig c8 = true)
+    (k0 : isDig e0 = true) (k1 : isDig e1 = true) :
+    TaxIdSrc.NL.checkMod97 ['N','L',c0,c1,c2,c3,c4,c5,c6,c7,c8,'B',e0,e1] = NL.checkMod97 ['N','L',c0,c1,c2,c3,c4,c5,c6,c7,c8,'B',e0,e1] := by
+  have hv (c : Char) (h : isDig c = true) : NL.mod97Val c = dval c := by simp [NL.mod97Val, h, dval]
+  have hR : NL.checkMod97 ['N','L',c0,c1,c2,c3,c4,c5,c6,c7,c8,'B',e0,e1] =
+      (Spec.TaxId.num [2,3,2,1,dval c0,dval c1,dval c2,dval c3,dval c4,dval c5,dval c6,dval c7,dval c8,1,1,dval e0,dval e1] % 97 == 1) := by
+    simp only [NL.checkMod97, List.map, hv _ h0, hv _ h1, hv _ h2, hv _ h3, hv _ h4, hv _ h5, hv _ h6, hv _ h7, hv _ h8, hv _ k0, hv _ k1]
+    rw [show NL.mod97Val 'N' = 23 from by decide, show NL.mod97Val 'L' = 21 from by decide, show NL.mod97Val 'B' = 11 from by decide]
+    rw [nl_mod97Loop _ _ _ _ _ _ _ _ _ _ _ ⟨dval_le h0, dval_le h1, dval_le h2, dval_le h3, dval_le h4, dval_le h5, dval_le h6,
+      dval_le h7, dval_le h8, dval_le k0, dval_le k1⟩]
+  rw [hR]
+  unfold TaxIdSrc.NL.checkMod97
+  simp only [Id.run]
+  have b0 := dval_le h0; have b1 := dval_le h1; have b2 := dval_le h2; have b3 := dval_le h3; have b4 := dval_le h4
+  have b5 := dval_le h5; have b6 := dval_le h6; have b7 := dval_le h7; have b8 := dval_le h8
+  have a0 := dval_le k0; have a1 := dval_le k1
+  have n0 : ¬ 9 < dval c0 := by omega
+  have n1 : ¬ 9 < dval c1 := by omega
+  have n2 : ¬ 9 < dval c2 := by omega
+  have n3 : ¬ 9 < dval c3 := by omega
+  have n4 : ¬ 9 < dval c4 := by omega
+  have n5 : ¬ 9 < dval c5 := by omega
+  have n6 : ¬ 9 < dval c6 := by omega
+  have n7 : ¬ 9 < dval c7 := by omega
+  have n8 : ¬ 9 < dval c8 := by omega
+  have m0 : ¬ 9 < dval e0 := by omega
+  have m1 : ¬ 9 < dval e1 := by omega
+  simp [List.zipIdx, rune_digit_if, runeOf_sub_digit, h0, h1, h2, h3, h4, h5, h6, h7, h8, k0, k1,
+    runeOf_N, runeOf_L, runeOf_B, isDig_N, isDig_L, isDig_B, Spec.TaxId.num,
+    n0, n1, n2, n3, n4, n5, n6, n7, n8, m0, m1]
+  rw [id_pure, Int.tmod_eq_emod_of_nonneg (by omega), Bool.eq_iff_iff]
+  simp only [decide_eq_true_eq, beq_iff_eq]
+  omega
+
+theorem src_nl_digits (code check : Str) (hc : code.all isAZ09 = true) (hk : check.all isAZ09 = true)
+    (hl : code.length = 9) (hl2 : check.length = 2) :
+    (TaxIdSrc.NL.validateDigits code check).isNone = NL.validateDigits code check := by
+  unfold TaxIdSrc.NL.validateDigits NL.validateDigits
+  simp only [Id.run, atoi_gated code hc, atoi_gated check hk, TaxIdSrc.NL.errInvalidVAT]
+  cases h1 : atoi? code with
+  | none => simp [errNew_isSome]; rfl
+  | some n =>
+    cases h2 : atoi? check with
+    | none => simp [errNew_isSome]; rfl
+    | some m =>
+      have d1 := allDig_of_atoi h1
+      have d2 := allDig_of_atoi h2
+      obtain ⟨c0,c1,c2,c3,c4,c5,c6,c7,c8,rfl⟩ := len9 code hl
+      match check, hl2 with
+      | [e0, e1], _ =>
+        simp only [allDig, List.all_cons, List.all_nil, Bool.and_true, Bool.and_eq_true] at d1 d2
+        obtain ⟨h0, h1', h2', h3, h4, h5, h6, h7, h8⟩ := d1
+        obtain ⟨k0, k1⟩ := d2
+        have hm := src_nl_mod97 c0 c1 c2 c3 c4 c5 c6 c7 c8 e0 e1 h0 h1' h2' h3 h4 h5 h6 h7 h8 k0 k1
+        simp only [List.cons_append, List.nil_append] at hm ⊢
+        simp only [Option.isSome_none, Bool.false_eq_true, if_false, src_nl_mod11, hm, bind, pure,
+          show (10 : Int) = ((10 : Nat) : Int) from rfl, tmod_nat]
+        cases NL.checkMod97 ['N', 'L', c0, c1, c2, c3, c4, c5, c6, c7, c8, 'B', e0, e1] <;>
+          by_cases he : NL.mod11 n = (n : Int) % 10 <;> simp [he, errNew_isNone]
+
+/-- behind the generic gate `^[A-Z0-9]+$` -/
+theorem src_nl_validate (s : Str) (hg : gate s = true) :
+    (TaxIdSrc.NL.validateTaxCode (some s)).isNone = NL.regime s := by
+  have hne : s ≠ [] := by intro e; subst e; simp [gate] at hg
+  have hall : s.all isAZ09 = true := by simp only [gate, Bool.and_eq_true] at hg; exact hg.2
+  unfold TaxIdSrc.NL.validateTaxCode
+  simp only [Id.run, NL.regime, Option.getD_some, Option.isSome_some, not_true_eq_false, hne, if_false]
+  by_cases hl : s.length = 12
+  case neg =>
+    have : (s.length : Int) ≠ 12 := by omega
+    simp [hl, this, errNew_isNone]; rfl
+  obtain ⟨c0,c1,c2,c3,c4,c5,c6,c7,c8,c9,c10,c11,rfl⟩ := len12 s hl
+  by_cases h9 : c9 = 'B'
+  case neg =>
+    have : GoStr.byteAt [c0,c1,c2,c3,c4,c5,c6,c7,c8,c9,c10,c11] 9 ≠ 66 := by
+      simp only [GoStr.byteAt, List.getD_cons_succ, List.getD_cons_zero]
+      intro h; apply h9; rw [char_eq_iff_toNat]; exact h
+    simp [this, h9, errNew_isNone]; rfl
+  subst h9
+  simp only [List.all_cons, List.all_nil, Bool.and_true, Bool.and_eq_true] at hall
+  have := src_nl_digits [c0,c1,c2,c3,c4,c5,c6,c7,c8] [c10,c11] (by simp [hall]) (by simp [hall]) rfl rfl
+  simp [GoStr.byteAt, GoStr.slice]
+  rw [id_pure]
+  exact this
+
+/-! ### IN -/
+
+theorem src_in_charToValue (c : Char) (h : isAZ09 c = true) :
+    TaxIdSrc.IN.charToValue (GoStr.runeOf c) = (IN.charToValue c : Int) := by
+  unfold TaxIdSrc.IN.charToValue IN.charToValue
+  simp only [Id.run, GoStr.runeOf]
+  simp only [isAZ09, isDig, isUp, Bool.or_eq_true, decide_eq_true_eq] at h
+  by_cases hd : isDig c = true
+  · have hb := isDig_bounds hd
+    have : (c.toNat : Int) ≥ 48 ∧ (c.toNat : Int) ≤ 57 := by omega
+    simp only [hd, this, and_self, if_true, pure]; omega
+  · have hn : ¬ ((c.toNat : Int) ≥ 48 ∧ (c.toNat : Int) ≤ 57) := by
+      simp only [isDig, decide_eq_true_eq] at hd; omega
+    simp only [hd, hn, if_false, pure, Bool.false_eq_true]
+    simp only [isDig, decide_eq_true_eq] at hd
+    omega
+
+theorem src_in_valueToChar (v : Nat) (hv : v < 36) :
+    TaxIdSrc.IN.valueToChar (v : Int) = ((IN.valueToChar v).toNat : Int) := by
+  unfold TaxIdSrc.IN.valueToChar IN.valueToChar
+  simp only [Id.run]
+  by_cases h9 : v ≤ 9
+  · have : (v : Int) ≥ 0 ∧ (v : Int) ≤ 9 := by omega
+    simp only [h9, this, and_self, if_true, pure]
+    rw [ofNat_toNat_small _ (by omega)]; omega
+  · have : ¬ ((v : Int) ≥ 0 ∧ (v : Int) ≤ 9) := by omega
+    simp only [h9, this, if_false, pure]
+    rw [ofNat_toNat_small _ (by omega)]; omega
+
+private theorem in_sub (r : Nat) (h : r ≤ 36) : (Int.subNatNat 36 r).tmod 36 = (((36 - r) % 36 : Nat) : Int) := by
+  rw [Int.subNatNat_eq_coe, Int.tmod_eq_emod_of_nonneg (by omega)]; omega
+
+private theorem in_final (x : Int) (n : Nat) (c : Char) (m : String) (hx : x = (n : Int)) (hn : n < 36) :
+    Option.isNone (if TaxIdSrc.IN.valueToChar x = (c.toNat : Int) then (@pure Id _ (Option GoStr.Str) none) else (@pure Id _ (Option GoStr.Str) (GoStr.errNew m)))
+      = (IN.valueToChar n == c) := by
+  subst hx
+  rw [src_in_valueToChar n hn]
+  by_cases h : IN.valueToChar n = c
+  · subst h; simp
+    rfl
+  · have h' : ¬ (((IN.valueToChar n).toNat : Int) = (c.toNat : Int)) := by
+      intro e; apply h; rw [char_eq_iff_toNat]; omega
+    simp [h']
+    rw [id_pure]; simp [errNew_isNone, h]
+
+theorem src_in_checksum (s : Str) (hl : s.length = 15) (hg : s.all isAZ09 = true) :
+    (TaxIdSrc.IN.hasValidChecksum s).isNone = IN.hasValidChecksum s := by
+  obtain ⟨c0,c1,c2,c3,c4,c5,c6,c7,c8,c9,c10,c11,c12,c13,c14,rfl⟩ := len15 s hl
+  simp only [List.all_cons, List.all_nil, Bool.and_true, Bool.and_eq_true] at hg
+  obtain ⟨g0, g1, g2, g3, g4, g5, g6, g7, g8, g9, g10, g11, g12, g13, g14⟩ := hg
+  unfold TaxIdSrc.IN.hasValidChecksum IN.hasValidChecksum
+  simp only [Id.run]
+  simp [List.zipIdx, src_in_charToValue, g0, g1, g2, g3, g4, g5, g6, g7, g8, g9, g10, g11, g12, g13, IN.loop, GoStr.byteAt]
+  refine in_final _ _ _ _ ?_ ?_
+  · norm_cast
+    exact in_sub _ (by omega)
+  · omega
+
+private theorem in_fmt_gate (s : Str) (hf : IN.fmt s = true) : s.length = 15 ∧ s.all isAZ09 = true := by
+  have hl : s.length = 15 := by simpa [rep] using matchSeq_length _ _ hf
+  refine ⟨hl, ?_⟩
+  obtain ⟨c0,c1,c2,c3,c4,c5,c6,c7,c8,c9,c10,c11,c12,c13,c14,rfl⟩ := len15 s hl
+  simp only [IN.fmt, matchSeq, rep, List.replicate, List.append, List.cons_append, List.nil_append, Bool.and_eq_true, Bool.and_true] at hf
+  obtain ⟨h0, h1, h2, h3, h4, h5, h6, h7, h8, h9, h10, h11, h12, h13, h14⟩ := hf
+  have e13 : isAZ09 c13 = true := by simp only [isCh, beq_iff_eq] at h13; subst h13; decide
+  have e12 : isAZ09 c12 = true := by
+    simp only [IN.cls19AZ, isAZ09, isDig, Bool.or_eq_true, decide_eq_true_eq] at h12 ⊢
+    rcases h12 with h | h
+    · left; omega
+    · right; exact h
+  simp only [isAZ09, Bool.or_eq_true] at e12 e13 h14
+  simp [isAZ09, h0, h1, h2, h3, h4, h5, h6, h7, h8, h9, h10, h11, e12, e13, h14]
+
+theorem src_in_validate (s : Str) :
+    (TaxIdSrc.IN.validateTaxCode (some s)).isNone = accepts IN.regime s := by
+  unfold TaxIdSrc.IN.validateTaxCode
+  simp only [Id.run, accepts, IN.regime, TaxIdSrc.IN.taxCodeRegexp, re_in]
+  cases s with
+  | nil => simp; rfl
+  | cons c cs =>
+    generalize hs : c :: cs = s
+    have hne : s ≠ [] := by rw [← hs]; simp
+    have hie := isEmpty_false_of_ne hne
+    simp only [Option.getD_some, Option.isSome_some, not_true_eq_false, hne, false_or, if_false]
+    by_cases hf : IN.fmt s = true
+    case neg => simp [hf]; rw [id_pure]; simp [errNew_isNone, hie]
+    obtain ⟨hl, hg⟩ := in_fmt_gate s hf
+    have hc := src_in_checksum s hl hg
+    simp only [hf, not_true_eq_false, if_false, hie, Bool.false_or, Bool.true_and, ← hc, bind, pure]
+    cases TaxIdSrc.IN.hasValidChecksum s <;> rfl
+
+/-! ### GB -/
+
+theorem src_gb_multipliers : TaxIdSrc.GB.taxCodeMultipliers = GB.multipliers.map (Nat.cast : Nat → Int) := rfl
+
+theorem src_gb_commercial (val : Str) (hd : allDig val = true) (hl : 9 ≤ val.length) :
+    (TaxIdSrc.GB.commercialCheck val).isNone = GB.commercialCheck val := by
+  have hne : val ≠ [] := by intro e; subst e; simp at hl
+  have hne7 : val.take 7 ≠ [] := by
+    intro e; have := congrArg List.length e; simp only [List.length_take, List.length_nil] at this; omega
+  have hne2 : GoStr.slice val 7 9 ≠ [] := by
+    intro e; have := congrArg List.length e
+    simp only [GoStr.slice, List.length_drop, List.length_take, List.length_nil] at this; omega
+  have hd2 : allDig (GoStr.slice val 7 9) = true := allDig_drop (allDig_take hd 9) 7
+  have es : GoStr.slice val 7 9 = (val.drop 7).take 2 := by simp [GoStr.slice, List.drop_take]
+  have hw := forIn_wsum GB.multipliers val 0 0 0 (by simp only [GB.multipliers, List.length_cons, List.length_nil]; omega)
+  simp only [Nat.add_zero, Nat.cast_zero, List.drop_zero] at hw
+  unfold TaxIdSrc.GB.commercialCheck GB.commercialCheck
+  simp only [Id.run, atoi_digits val hne hd, atoi_digits _ hne7 (allDig_take hd 7), atoi_digits _ hne2 hd2, src_gb_multipliers,
+    Int.toNat_natCast, hw]
+  simp only [pure_bind, Int.toNat_natCast]
+  rw [forIn_range_fuel _ (fun _ _ => rfl)]
+  simp only [pure_bind]
+  rw [forFuel_sub97 _ (by intro c; simp only [Id.run]; split <;> rfl)]
+  rw [gb_subLoop _ _ (by omega) (by push_cast; omega)]
+  rw [gb_subLoop (wloop GB.multipliers val 0 + 1) _ (by omega) (by push_cast; omega)]
+  rw [es]
+  generalize wloop GB.multipliers val 0 = S
+  generalize atoi0 val = N
+  generalize atoi0 (val.take 7) = B
+  generalize atoi0 ((val.drop 7).take 2) = L
+  clear hw es hd2 hne2 hne7 hne hd hl
+  simp only [id_pure]
+  generalize (S : Int) - 97 * (((S : Int) + 96) / 97) = C
+  by_cases hN : N = 0
+  · subst hN; simp [errNew_isNone]
+  have hN' : ¬ ((N : Int) = 0) := by omega
+  simp only [hN, hN', if_false, beq_iff_eq, Bool.false_eq_true]
+  have c1 : ((B : Int) < 9990001) ↔ B < 9990001 := by omega
+  have c2 : ((B : Int) < 100000) ↔ B < 100000 := by omega
+  have c3 : ((B : Int) > 999999) ↔ B > 999999 := by omega
+  have c4 : ((B : Int) < 9490001) ↔ B < 9490001 := by omega
+  have c5 : ((B : Int) > 9700000) ↔ B > 9700000 := by omega
+  have c6 : ((B : Int) > 1000000) ↔ B > 1000000 := by omega
+  simp only [c1, c2, c3, c4, c5, c6, Bool.and_eq_true, Bool.or_eq_true, decide_eq_true_eq, beq_iff_eq, and_assoc]
+  by_cases hC : C < 0 <;> simp only [hC, if_true, if_false]
+  all_goals (clear c1 c2 c3 c4 c5 c6; (repeat' split) <;> simp_all [errNew_isNone])
+
+theorem src_gb_gd (val : Str) (hg : (val.drop 2).all isAZ09 = true) :
+    (TaxIdSrc.GB.governmentDepartmentCheck val).isNone = decide (atoi0 (val.drop 2) ≤ 499) := by
+  unfold TaxIdSrc.GB.governmentDepartmentCheck
+  simp only [Id.run, atoi_gated_fst _ hg, bind, pure]
+  by_cases h : atoi0 (val.drop 2) ≤ 499
+  · have : ¬ ((atoi0 (val.drop 2) : Int) > 499) := by omega
+    simp [h, this]
+  · have : ((atoi0 (val.drop 2) : Int) > 499) := by omega
+    simp [h, this, errNew_isNone]
+
+theorem src_gb_ha (val : Str) (hg : (val.drop 2).all isAZ09 = true) :
+    (TaxIdSrc.GB.healthAuthorityCheck val).isNone = decide (atoi0 (val.drop 2) ≥ 500) := by
+  unfold TaxIdSrc.GB.healthAuthorityCheck
+  simp only [Id.run, atoi_gated_fst _ hg, bind, pure]
+  by_cases h : atoi0 (val.drop 2) ≥ 500
+  · have : ¬ ((atoi0 (val.drop 2) : Int) < 500) := by omega
+    simp [h, this]
+  · have : ((atoi0 (val.drop 2) : Int) < 500) := by omega
+    simp [h, this, errNew_isNone]
+
+private theorem gb_fmt_cases (s : Str) (hf : GB.fmt s = true) :
+    (allDig s = true ∧ 9 ≤ s.length) ∨
+    (∃ x y z, s = ['G', 'D', x, y, z] ∧ isDig x = true ∧ isDig y = true ∧ isDig z = true) ∨
+    (∃ x y z, s = ['H', 'A', x, y, z] ∧ isDig x = true ∧ isDig y = true ∧ isDig z = true) := by
+  simp only [GB.fmt, Bool.or_eq_true] at hf
+  rcases hf with ((h | h) | h) | h
+  · have := matchSeq_rep_isDig 9 s h; exact Or.inl ⟨this.1, by omega⟩
+  · have := matchSeq_rep_isDig 12 s h; exact Or.inl ⟨this.1, by omega⟩
+  · have hl : s.length = 5 := by simpa [rep] using matchSeq_length _ _ h
+    obtain ⟨a, b, x, y, z, rfl⟩ := len5 s hl
+    simp only [matchSeq, rep, List.replicate, isCh, Bool.and_eq_true, beq_iff_eq, Bool.and_true] at h
+    obtain ⟨rfl, rfl, hx, hy, hz⟩ := h
+    exact Or.inr (Or.inl ⟨x, y, z, rfl, hx, hy, hz⟩)
+  · have hl : s.length = 5 := by simpa [rep] using matchSeq_length _ _ h
+    obtain ⟨a, b, x, y, z, rfl⟩ := len5 s hl
+    simp only [matchSeq, rep, List.replicate, isCh, Bool.and_eq_true, beq_iff_eq, Bool.and_true] at h
+    obtain ⟨rfl, rfl, hx, hy, hz⟩ := h
+    exact Or.inr (Or.inr ⟨x, y, z, rfl, hx, hy, hz⟩)
+
+theorem src_gb_validate (s : Str) :
+    (TaxIdSrc.GB.validateTaxCode (some s)).isNone = accepts GB.regime s := by
+  unfold TaxIdSrc.GB.validateTaxCode
+  simp only [Id.run, accepts, GB.regime, TaxIdSrc.GB.taxCodeRegexps]
+  cases s with
+  | nil => simp; rfl
+  | cons c cs =>
+    generalize hs : c :: cs = s
+    have hne : s ≠ [] := by rw [← hs]; simp
+    have hie := isEmpty_false_of_ne hne
+    simp only [Option.getD_some, Option.isSome_some, not_true_eq_false, hne, false_or, if_false]
+    rw [forIn_match_any]
+    simp only [List.any_cons, List.any_nil, re_d9, re_d12, re_gd, re_ha, Bool.or_false, Bool.false_or]
+    have hfm : (FR.sirenRe s || (matchSeq (rep 12 isDig) s || (matchSeq (isCh 'G' :: isCh 'D' :: rep 3 isDig) s ||
+        matchSeq (isCh 'H' :: isCh 'A' :: rep 3 isDig) s))) = GB.fmt s := by
+      simp [GB.fmt, FR.sirenRe, Bool.or_assoc]
+    rw [hfm]
+    by_cases hf : GB.fmt s = true
+    case neg => simp [hf]; rw [id_pure]; simp [errNew_isNone, hie]
+    simp only [hf, pure_bind, not_true_eq_false, if_false, hie, Bool.false_or]
+    simp only [hasPrefix2]
+    rcases gb_fmt_cases s hf with ⟨hd, hl⟩ | ⟨x, y, z, rfl, hx, hy, hz⟩ | ⟨x, y, z, rfl, hx, hy, hz⟩
+    · have h0 : isDig (s.getD 0 ' ') = true := by
+        have : 0 < s.length := by omega
+        simpa [List.getD_eq_getElem?_getD, this] using allDig_getElem hd 0 this
+      have e1 : (s.take 2 == ['G', 'D']) = false := by
+        match s, hne, h0 with
+        | a :: t, _, h0 =>
+          simp only [List.getD_cons_zero] at h0
+          cases t <;> simp <;> (intro e; subst e; simp [isDig] at h0)
+      have e2 : (s.take 2 == ['H', 'A']) = false := by
+        match s, hne, h0 with
+        | a :: t, _, h0 =>
+          simp only [List.getD_cons_zero] at h0
+          cases t <;> simp <;> (intro e; subst e; simp [isDig] at h0)
+      simp only [e1, e2, Bool.false_eq_true, if_false, Bool.not_true]
+      rw [id_pure]
+      exact src_gb_commercial s hd hl
+    · have := src_gb_gd ['G', 'D', x, y, z] (by simp [isAZ09, hx, hy, hz])
+      simp [this]
+      rw [id_pure]; exact this
+    · have := src_gb_ha ['H', 'A', x, y, z] (by simp [isAZ09, hx, hy, hz])
+      simp [this]
+      rw [id_pure]; exact this
+
+/-! ### BR -/
+
+theorem src_br_verify (s : Str) (hl : s.length = 14) (hd : allDig s = true) (ws : List Nat) (pos : Nat)
+    (hw : ws = BR.weights1 ∧ pos = 12 ∨ ws = BR.weights2 ∧ pos = 13) :
+    (TaxIdSrc.BR.verifyDigit s (ws.map (Nat.cast : Nat → Int)) (pos : Int)).isNone = BR.verifyDigit s ws pos := by
+  obtain ⟨c0,c1,c2,c3,c4,c5,c6,c7,c8,c9,c10,c11,c12,c13,rfl⟩ := len14 s hl
+  simp only [allDig, List.all_cons, List.all_nil, Bool.and_true, Bool.and_eq_true] at hd
+  obtain ⟨h0, h1, h2, h3, h4, h5, h6, h7, h8, h9, h10, h11, h12, h13⟩ := hd
+  have b0 := dval_le h0; have b1 := dval_le h1; have b2 := dval_le h2; have b3 := dval_le h3; have b4 := dval_le h4
+  have b5 := dval_le h5; have b6 := dval_le h6; have b7 := dval_le h7; have b8 := dval_le h8; have b9 := dval_le h9
+  have b10 := dval_le h10; have b11 := dval_le h11; have b12 := dval_le h12; have b13 := dval_le h13
+  unfold TaxIdSrc.BR.verifyDigit BR.verifyDigit
+  simp only [Id.run]
+  rw [forIn_range_fuel _ (fun _ _ => rfl)]
+  rcases hw with ⟨rfl, rfl⟩ | ⟨rfl, rfl⟩
+  · simp [BR.weights1, forFuel, GoStr.byteAt, ofByte_toNat, atoi_single_digit, TaxId.atoi_single, BR.sumLoop,
+      h0, h1, h2, h3, h4, h5, h6, h7, h8, h9, h10, h11, h12, h13]
+    simp only [id_pure]
+    norm_cast
+    clear h0 h1 h2 h3 h4 h5 h6 h7 h8 h9 h10 h11 h12 h13 hl
+    src_arith
+  · simp [BR.weights2, forFuel, GoStr.byteAt, ofByte_toNat, atoi_single_digit, TaxId.atoi_single, BR.sumLoop,
+      h0, h1, h2, h3, h4, h5, h6, h7, h8, h9, h10, h11, h12, h13]
+    simp only [id_pure]
+    norm_cast
+    clear h0 h1 h2 h3 h4 h5 h6 h7 h8 h9 h10 h11 h12 h13 hl
+    src_arith
+
+/-- for every string of 14 digits (the validator itself answers "must contain only digits" otherwise:
+    not covered here, see the header) -/
+theorem src_br_validate_digits (s : Str) (hl : s.length = 14) (hd : allDig s = true) :
+    (TaxIdSrc.BR.validateTaxCode (some s)).isNone = BR.regime s := by
+  have hne : s ≠ [] := by intro e; subst e; simp at hl
+  have hl' : ¬ ((s.length : Int) ≠ 14) := by omega
+  have e1 := src_br_verify s hl hd BR.weights1 12 (Or.inl ⟨rfl, rfl⟩)
+  have e2 := src_br_verify s hl hd BR.weights2 13 (Or.inr ⟨rfl, rfl⟩)
+  have w1 : ([5, 4, 3, 2, 9, 8, 7, 6, 5, 4, 3, 2] : List Int) = BR.weights1.map (Nat.cast : Nat → Int) := rfl
+  have w2 : ([6, 5, 4, 3, 2, 9, 8, 7, 6, 5, 4, 3, 2] : List Int) = BR.weights2.map (Nat.cast : Nat → Int) := rfl
+  unfold TaxIdSrc.BR.validateTaxCode
+  simp only [Id.run, BR.regime, Option.getD_some, Option.isSome_some, not_true_eq_false, hne, false_or, if_false, hl', hl,
+    bne_self_eq_false, Bool.false_eq_true]
+  rw [w2, w1, show ((12 : Int)) = ((12 : Nat) : Int) from rfl, show ((13 : Int)) = ((13 : Nat) : Int) from rfl, ← e1, ← e2]
+  cases h1 : TaxIdSrc.BR.verifyDigit s (BR.weights1.map Nat.cast) ((12 : Nat) : Int) <;>
+    cases h2 : TaxIdSrc.BR.verifyDigit s (BR.weights2.map Nat.cast) ((13 : Nat) : Int) <;> simp [h1, h2] <;> rfl
+
+/-! ### the loops never run out of fuel (one theorem per entry of `fuelChecks`) -/
+
+theorem luhn_fuel_suffices (number : Str) : TaxIdSrc.Common.ComputeLuhnCheckDigit_fuelOK number = true := by
+  unfold TaxIdSrc.Common.ComputeLuhnCheckDigit_fuelOK
+  simp only [Id.run]
+  rw [forIn_range_fuel _ (fun _ _ => rfl)]
+  simp only [pure_bind]
+  generalize hr : forFuel _ number.length _ = r
+  have key : False ∨ (True ∧ ¬ (- r.2.2) < 1) := by
+    rw [← hr]
+    exact forFuel_counter _ (fun b : Int × Int × Int => - b.2.2) 1 (fun _ => False) (fun _ => True)
+      (by fuel_step) (by fuel_step) number.length _ trivial (by simp)
+  clear hr
+  rcases key with h | ⟨_, h2⟩
+  · exact h.elim
+  · have : ¬ (r.2.2 ≥ 0) := by omega
+    simp only [this, if_false]; rfl
+
+theorem pt_fuel_suffices (v : Option Str) : TaxIdSrc.PT.validateTaxCode_fuelOK v = true := by
+  unfold TaxIdSrc.PT.validateTaxCode_fuelOK
+  simp only [Id.run]
+  split
+  · rfl
+  split
+  · rfl
+  rw [forIn_all_guard]
+  split
+  · simp only [pure_bind]
+    split
+    · rfl
+    split
+    · rfl
+    rw [forIn_range_fuel _ (fun _ _ => rfl)]
+    simp only [pure_bind]
+    generalize hr : forFuel _ 9 _ = r
+    have key : (r.1 = some true) ∨ (r.1 = none ∧ ¬ r.2.2 < 9) := by
+      rw [← hr]
+      exact forFuel_counter _ (fun b : Option Bool × Int × Int => b.2.2) 9 (fun b => b.1 = some true) (fun b => b.1 = none)
+        (by fuel_step)
+        (by fuel_step)
+        9 _ rfl (by simp)
+    clear hr
+    rcases key with h | ⟨h1, h2⟩
+    · simp [h]; rfl
+    · simp [h1, h2]
+      rfl
+  · rfl
+
+theorem nl_mod11_fuel_suffices (num : Int) : TaxIdSrc.NL.mod11_fuelOK num = true := by
+  unfold TaxIdSrc.NL.mod11_fuelOK
+  simp only [Id.run]
+  rw [forIn_range_fuel _ (fun _ _ => rfl)]
+  simp [forFuel]
+  rfl
+
+theorem de_fuel_suffices (val : Str) : TaxIdSrc.DE.validateTaxCodeChecksum_fuelOK val = true := by
+  unfold TaxIdSrc.DE.validateTaxCodeChecksum_fuelOK
+  simp only [Id.run]
+  rw [forIn_range_fuel _ (fun _ _ => rfl)]
+  simp only [pure_bind]
+  generalize hr : forFuel _ 8 _ = r
+  have key : (r.1 = some true) ∨ (r.1 = none ∧ ¬ r.2.2.2 < 8) := by
+    rw [← hr]
+    exact forFuel_counter _ (fun b : Option Bool × Int × Int × Int => b.2.2.2) 8 (fun b => b.1 = some true) (fun b => b.1 = none)
+      (by fuel_step) (by fuel_step) 8 _ rfl (by simp)
+  clear hr
+  rcases key with h | ⟨h1, h2⟩
+  · simp [h]; rfl
+  · simp only [h1, h2, if_false]
+    (repeat' split) <;> rfl
+
+theorem gr_fuel_suffices (val : Str) : TaxIdSrc.GR.hasValidChecksum_fuelOK val = true := by
+  unfold TaxIdSrc.GR.hasValidChecksum_fuelOK
+  simp only [Id.run]
+  generalize hr1 : forIn (m := Id) val.zipIdx _ _ = r1
+  have h1 : r1.1 = none ∨ r1.1 = some true := by
+    rw [← hr1]
+    exact forIn_list_inv _ _ (fun b : Option Bool × List Int => b.1 = none ∨ b.1 = some true) (by inv_step) _ (Or.inl rfl)
+  clear hr1
+  simp only [bind]
+  rcases h1 with h1 | h1
+  · rw [h1]
+    show (if _ then _ else _) = true
+    rw [forIn_range_fuel _ (fun _ _ => rfl)]
+    generalize hr : forFuel _ 8 _ = r
+    have key : False ∨ (True ∧ ¬ r.2 < 8) := by
+      rw [← hr]
+      exact forFuel_counter _ (fun b : Int × Int => b.2) 8 (fun _ => False) (fun _ => True)
+        (by fuel_step) (by fuel_step) 8 _ trivial (by simp)
+    clear hr
+    rcases key with h | ⟨_, h2⟩
+    · exact h.elim
+    · show (if r.2 < 8 then _ else _) = true
+      rw [if_neg h2]; rfl
+  · rw [h1]; rfl
+
+theorem br_fuel_suffices (cnpj : Str) (weights : List Int) (position : Int) :
+    TaxIdSrc.BR.verifyDigit_fuelOK cnpj weights position = true := by
+  unfold TaxIdSrc.BR.verifyDigit_fuelOK
+  simp only [Id.run]
+  rw [forIn_range_fuel _ (fun _ _ => rfl)]
+  simp only [pure_bind]
+  generalize hr : forFuel _ weights.length _ = r
+  have key : (r.1 = some true) ∨ (r.1 = none ∧ ¬ r.2.2 < (weights.length : Int)) := by
+    rw [← hr]
+    exact forFuel_counter _ (fun b : Option Bool × Int × Int => b.2.2) (weights.length : Int) (fun b => b.1 = some true)
+      (fun b => b.1 = none) (by fuel_step) (by fuel_step) weights.length _ rfl (by simp)
+  clear hr
+  rcases key with h | ⟨h1, h2⟩
+  · simp [h]; rfl
+  · simp only [h1, h2, if_false]
+    (repeat' split) <;> rfl
+
+private theorem gb_subLoop_nonpos (c : Int) : ¬ (GB.subLoop (Int.toNat c) c > 0) := by
+  by_cases h : c ≤ 0
+  · have : Int.toNat c = 0 := by omega
+    rw [this]; simp only [GB.subLoop]; omega
+  · rw [gb_subLoop _ _ (by omega) (by omega)]; omega
+
+theorem gb_fuel_suffices (val : Str) : TaxIdSrc.GB.commercialCheck_fuelOK val = true := by
+  unfold TaxIdSrc.GB.commercialCheck_fuelOK
+  simp only [Id.run]
+  split
+  · rfl
+  generalize (forIn (m := Id) TaxIdSrc.GB.taxCodeMultipliers.zipIdx _ _) = sum
+  simp only [bind]
+  rw [forIn_range_fuel _ (fun _ _ => rfl)]
+  rw [forFuel_sub97 _ (by intro c; simp only [Id.run]; split <;> rfl)]
+  have := gb_subLoop_nonpos sum
+  simp only [id_pure]
+  rw [if_neg this]
+  (repeat' split) <;> rfl
+
+/-! ### bookkeeping of the translation
+
+  Translated, compiled, but NOT yet related to the model by a theorem (nothing is claimed about them):
+  `at.commercialCheck`, `at.validateTaxCode`, `be.commercialCheck`, `be.validateTaxCode`, `ch.commercialCheck`,
+  `ch.validateTaxCode` (the float64 detours: `math.Mod`, `math.Floor`, `float64(n)`), and `br.validateTaxCode` on
+  strings of 14 characters that are not all digits (`src_br_validate_digits` covers the digit strings). -/
+
+/-- every loop with a fuel term has its theorem above -/
+theorem fuel_checks_listed : TaxIdSrc.fuelChecks =
+    ["common.ComputeLuhnCheckDigit_fuelOK", "pt.validateTaxCode_fuelOK", "nl.mod11_fuelOK", "de.validateTaxCodeChecksum_fuelOK",
+     "gr.hasValidChecksum_fuelOK", "br.verifyDigit_fuelOK", "gb.commercialCheck_fuelOK"] := by decide
+
+/-- what the subset does not reach (it can only shrink): MX `ValidateTaxCode` reads a variable of
+    package tax; ES goes through `regexp.FindStringSubmatch`/`SubexpNames`, a map that is written, and `k & 1` -/
+theorem untranslated_pinned : TaxIdSrc.untranslated =
+    ["mx.ValidateTaxCode", "es.verifyOrgCodeMatches", "es.verifyNationalCode", "es.verifyForeignCode", "es.verifyOrgCode",
+     "es.verifyOtherCode", "es.DetermineTaxCodeType", "es.validateTaxCode", "es.extractMatches"] := by decide
+
+/-- every subtraction on a byte (`val[i] - '0'`: truncated in the translation, wrapping in Go), with
+    the conditions around it: each is reached only behind a digit gate (luhn: callers pass digit
+    strings; GB, AT, BE, CH: the regexp of `validateTaxCode` admits digits only at these positions) -/
+theorem nat_subtractions_as_reviewed : TaxIdSrc.natSubs =
+    [("common.ComputeLuhnCheckDigit", "number[i] - '0'", ["i >= 0"]),
+     ("gb.commercialCheck", "val[i] - '0'", []),
+     ("at.commercialCheck", "val[i+1] - '0'", []),
+     ("at.commercialCheck", "val[8] - '0'", []),
+     ("be.commercialCheck", "val[1] - '0'", []),
+     ("ch.commercialCheck", "val[i+1] - '0'", []),
+     ("ch.commercialCheck", "val[9] - '0'", [])] := by decide
+
+/-- every regexp that a translated function matches against has an entry in the table of the
+    declared primitive `Re.reMatch` (Model/TaxIdRe.lean): a changed pattern text breaks this -/
+theorem re_patterns_known :
+    ([TaxIdSrc.PL.taxIdentityRegexp, TaxIdSrc.FR.taxCodeVATRegexp, TaxIdSrc.FR.taxCodeSIRENRegexp, TaxIdSrc.GR.taxCodeRegexp,
+      TaxIdSrc.IN.taxCodeRegexp, TaxIdSrc.AE.trnRegex, TaxIdSrc.MX.TaxIdentityRegexpPerson, TaxIdSrc.MX.TaxIdentityRegexpCompany,
+      TaxIdSrc.ES.taxCodeNationalRegexp, TaxIdSrc.ES.taxCodeForeignRegexp, TaxIdSrc.ES.taxCodeOrgRegexp, TaxIdSrc.ES.taxCodeOtherRegexp]
+      ++ TaxIdSrc.DE.taxCodeRegexps ++ TaxIdSrc.GB.taxCodeRegexps ++ TaxIdSrc.AT.taxCodeRegexps ++ TaxIdSrc.BE.taxCodeRegexps
+      ++ TaxIdSrc.CH.taxCodeRegexps).all Re.reKnown = true := by decide
+
+/-- a dynamic value that is not a `cbc.Code` is accepted by every checker (`if !ok { return nil }`) -/
+theorem src_not_a_code :
+    TaxIdSrc.PL.validateTaxCode none = none ∧ TaxIdSrc.PT.validateTaxCode none = none ∧ TaxIdSrc.NL.validateTaxCode none = none ∧
+    TaxIdSrc.IT.validateTaxCode none = none ∧ TaxIdSrc.FR.validateVATTaxCode none = none ∧ TaxIdSrc.DE.validateTaxCode none = none ∧
+    TaxIdSrc.CO.validateTaxCode none = none ∧ TaxIdSrc.GR.validateTaxCode none = none ∧ TaxIdSrc.IN.validateTaxCode none = none ∧
+    TaxIdSrc.GB.validateTaxCode none = none ∧ TaxIdSrc.AE.validateTRNCode none = none := by
+  refine ⟨?_, ?_, ?_, ?_, ?_, ?_, ?_, ?_, ?_, ?_, ?_⟩ <;> rfl
+
+/-! ### non-vacuity: the regenerated checkers on real codes -/
+
+example : (TaxIdSrc.PL.validateTaxCode (some "5260001246".toList)).isNone = true ∧
+    (TaxIdSrc.PL.validateTaxCode (some "5260001247".toList)).isNone = false := by
+  rw [src_pl_validate, src_pl_validate]; decide
+example : (TaxIdSrc.NL.validateTaxCode (some "000099998B57".toList)).isNone = true := by
+  rw [src_nl_validate _ (by decide)]; decide
+example : (TaxIdSrc.CO.validateTaxCode (some "9014586527".toList)).isNone = true ∧
+    (TaxIdSrc.FR.validateVATTaxCode (some "39356000000".toList)).isNone = true ∧
+    (TaxIdSrc.GB.validateTaxCode (some "350983637".toList)).isNone = true ∧
+    (TaxIdSrc.IN.validateTaxCode (some "27AAPFU0939F1ZV".toList)).isNone = true ∧
+    (TaxIdSrc.DE.validateTaxCode (some "111111125".toList)).isNone = true := by
+  rw [src_co_validate, src_fr_validate, src_gb_validate, src_in_validate, src_de_validate]; decide
+example : gate "000099998B57".toList = true ∧ DE.fmt "111111125".toList = true ∧ GR.fmt "925667500".toList = true ∧
+    allDig "11222333000181".toList = true := by decide
+/-- the hypotheses of the gated theorems above are satisfiable (luhn, FR, CO, IN, GB, GD/HA, NL digits) -/
+example : allDig "7992739871".toList = true ∧ ("356000000".toList).all isAZ09 = true ∧
+    (allDig "901458652".toList = true ∧ isDig '7' = true ∧ "901458652".toList.length = 9) ∧
+    ("27AAPFU0939F1ZV".toList.length = 15 ∧ ("27AAPFU0939F1ZV".toList).all isAZ09 = true) ∧
+    (allDig "350983637".toList = true ∧ 9 ≤ "350983637".toList.length) ∧
+    (("GD001".toList.drop 2).all isAZ09 = true ∧ ("HA501".toList.drop 2).all isAZ09 = true) ∧
+    (("000099998".toList).all isAZ09 = true ∧ ("57".toList).all isAZ09 = true) ∧ isAZ09 'Q' = true ∧ 35 < 36 := by decide
+
+end Src
 
 end GoblVerif.Props.C13
